@@ -185,7 +185,7 @@ theorem FCallStep.node {a : Sys} {v : Nat} {sta stb : NState} (hs : FCallStep h 
   | acc m hm hty hto ha hanc hc hci hs ht => exact .acc m hm hty hto ha hanc hc hci hs ht
 
 /-- a call that is not a compaction keeps the ghost log up to the snapshot point -/
-theorem ghost_low (H : Hyp2 cfg c0 h) {n : Nat} {a b : Sys} (ha : h[n]? = some a)
+theorem ghost_low (H : Hyp2w cfg c0 h) {n : Nat} {a b : Sys} (ha : h[n]? = some a)
     (hb : h[n + 1]? = some b) {k : Nat} {st st' : NState} {rnd : Option Nat} {op : NodeOp}
     {res : OpRes} (hka : a.node k = some st) (hkb : b.node k = some st')
     (hop : appOp op = true ∨ ∃ m, op = .step m ∧ m ∈ a.net ∧ m.to = k)
@@ -210,7 +210,7 @@ theorem ghost_low (H : Hyp2 cfg c0 h) {n : Nat} {a b : Sys} (ha : h[n]? = some a
   exact this
 
 /-- the ghost version of a batch accepted in a step of the history -/
-theorem facc_call (H : Hyp2 cfg c0 h) {n : Nat} {a b : Sys} (ha : h[n]? = some a)
+theorem facc_call (H : Hyp2w cfg c0 h) {n : Nat} {a b : Sys} (ha : h[n]? = some a)
     (hb : h[n + 1]? = some b) {k : Nat} {st st' : NState} {rnd : Option Nat} {m : Message}
     {res : OpRes} (hka : a.node k = some st) (hkb : b.node k = some st')
     (hm : m ∈ a.net) (hto : m.to = k)
@@ -226,7 +226,7 @@ theorem facc_call (H : Hyp2 cfg c0 h) {n : Nat} {a b : Sys} (ha : h[n]? = some a
   exact facc_of Ia.log Ib.log hacc hlow (by have := oa.snap_le; omega)
 
 /-- **what a `call` / `deliver` step does to the ghost log of its node** -/
-theorem fcall_step (H : Hyp2 cfg c0 h) {n : Nat} {a b : Sys} (ha : h[n]? = some a)
+theorem fcall_step (H : Hyp2w cfg c0 h) {n : Nat} {a b : Sys} (ha : h[n]? = some a)
     (hb : h[n + 1]? = some b) {k : Nat} {st st' : NState} {rnd : Option Nat} {op : NodeOp}
     {res : OpRes} (hka : a.node k = some st) (hkb : b.node k = some st')
     (hop : appOp op = true ∨ ∃ m, op = .step m ∧ m ∈ a.net ∧ m.to = k)
@@ -265,7 +265,7 @@ theorem fcall_step (H : Hyp2 cfg c0 h) {n : Nat} {a b : Sys} (ha : h[n]? = some 
       exact .acc m hm hty hto (facc_of Ia.log Ib.log hacc hlow hp) hacc.anchor hc hci hs ht
 
 /-- **what one step does to the ghost log of one node** -/
-theorem fnode_step (H : Hyp2 cfg c0 h) {n : Nat} {a b : Sys} (ha : h[n]? = some a)
+theorem fnode_step (H : Hyp2w cfg c0 h) {n : Nat} {a b : Sys} (ha : h[n]? = some a)
     (hb : h[n + 1]? = some b) {v : Nat} {sta stb : NState} (hva : a.node v = some sta)
     (hvb : b.node v = some stb) : FNodeStep h c0 a v sta stb := by
   obtain ⟨k, stk, stk', hka, hkb, hoth, hs⟩ := stp_of H ha hb
